@@ -159,6 +159,16 @@ CHECKS["C17"] = dict(
     note="Trusts the marker components as the witness of execution and the in-process driver (cross-checked against subprocesses).",
     design="DESIGN.md section 4 C17")
 
+CHECKS["C09"] = dict(
+    technique="Hypothesis-generated (pipeline, run_space) pairs driven through the CLI; differential oracle launch-run-i vs standalone run with run i's context (sink output and normalised trace); lifecycle invariants over the launch trace; metamorphic relations on the spec ID (cosmetic rewrite => equal, plan mutation => different), launch IDs (idempotency key) and inputs ID (touch vs edit of a source file)",
+    text=("Generated-input search (720 launches quick, 12.8k thorough; each with up to 4 standalone runs, a rewritten launch, a mutated "
+          "plan, launch-id variants and source-file touch/edit). Plan order, per-run equality with the standalone execution, exactly one "
+          "run_space_start/end with truthful planned/completed counts also on failure, launch id / attempt / 0-based index / context on "
+          "every pipeline_start, spec ID equal between inspect and trace and under cosmetic rewrites but different for different plans, "
+          "idempotent launch ids reproducible, inputs ID changing exactly with file content."),
+    note="Trusts the C08 reference expander for the plan and the CLI in-process driver.",
+    design="DESIGN.md section 4 C09")
+
 NOT_YET = {}
 
 
